@@ -694,7 +694,16 @@ def decode_from_hdf5(value: Any) -> Any:
             return value.item()
         if value.dtype.kind in {"S", "O", "U"}:
             try:
-                return value.astype(str).tolist()
+                # h5py returns variable-length strings as UTF-8 bytes, which
+                # astype(str) would decode as ASCII
+                decoded = np.array(
+                    [
+                        v.decode("utf-8") if isinstance(v, bytes) else v
+                        for v in value.ravel().tolist()
+                    ],
+                    dtype=object,
+                ).reshape(value.shape)
+                return decoded.astype(str).tolist()
             except Exception:
                 # fallback: leave as ndarray
                 return value
